@@ -4,6 +4,12 @@ from __future__ import annotations
 
 from ._kxcheck import replay_kx, run_kx
 
+
+def runtime_phase(run, tier, seed, tot):
+    from ..rtsweep import phase
+
+    return phase(run, tier, seed, tot, "C02", usability=True, sparse_only=True)
+
 ORACLES = ["wellformed", "ac"]
 
 
@@ -20,6 +26,7 @@ def run(tier, seed):
              "block holds parent-positions+1 initialised entries, crd strictly increasing per segment and inside the "
              "dimension, crd block holds pos[last] initialised entries, vals block holds one initialised value per "
              "stored position, no array NULL/dangling, no coordinate stored twice",
+        extra_phase=runtime_phase,
         assumptions=[
             "exact-length reallocation is not demanded (only 'at least as long'), so a legitimate change that stops "
             "shrinking arrays is not an alarm",
